@@ -602,8 +602,11 @@ impl<Tx: Debug + ProstMessage + Default, Rx: Debug + ProstMessage + Default> Cha
                     buffer.len(),
                     "available_data must equal the data slice length we validated against"
                 );
-                let message = Rx::decode(&buffer[delimiter_size()..message_len])
-                    .map_err(ChannelError::InvalidProtobufMessage)?;
+                let decoded = Rx::decode(&buffer[delimiter_size()..message_len]);
+                // Consume the frame whether or not its payload decodes. Leaving an
+                // undecodable frame in the front buffer would make every later
+                // `read_message()` fail on the same bytes and never reach the
+                // well-formed frames queued behind it.
                 let consumed = self.front_buf.consume(message_len);
                 // The whole frame (delimiter + payload) is consumed exactly:
                 // pair-assert that consume advanced by message_len and the data
@@ -617,7 +620,9 @@ impl<Tx: Debug + ProstMessage + Default, Rx: Debug + ProstMessage + Default> Cha
                     available_before - message_len,
                     "available_data must drop by exactly the consumed frame length"
                 );
-                return Ok(Some(message));
+                return decoded
+                    .map(Some)
+                    .map_err(ChannelError::InvalidProtobufMessage);
             }
         }
 
